@@ -8,6 +8,7 @@ Line-protocol driver of the C09 validator model.
         ctor   := slice <hex> | reader <j|s> <term> <hex>* | chunks <term> <hex>*
         term   := eof | e<k>          (e0 = io.ErrUnexpectedEOF, e<k> = status code k)
         method := iw | ra <off> <len> | bs <max> | cr <off> <max> <reads> | rd <size>* | cc <max> <method> | cs <method>
+                  | wt <method>      (Buffer.WithTask with a succeeding task, then the method)
       -> res=<open|ok|eof|err:<code>:<tag>> n=<n> pieces=<hex,hex,..|none> verdicts=<t|f>*
 
 The model never computes a hash: `H` is the declared pair, every other input maps to token 0
@@ -55,6 +56,7 @@ def method? : List String → Option Method
   | "rd" :: sizes => (allNats? sizes).map Method.toReader
   | "cc" :: m :: rest => do pure (.cloneCopy (← nat? m) (← method? rest))
   | "cs" :: rest => do pure (.cloneStream (← method? rest))
+  | "wt" :: rest => do pure (.withTask (← method? rest))
   | _ => none
 
 def errTag : Err → String
